@@ -376,7 +376,8 @@ def finish(prop, tier, res, check, rule, t0, exhaustive=True, extra=None, assump
     for key, n, v in unrepro:
         lines.append("NOTE: property=%s unreproducible in isolation (ignored): %s x%d" % (prop, key, n))
     cov = {
-        "states": len(res.digests),
+        "states": res.evaluations,
+        "states_note": "every generated case is a distinct (initial state, operation sequence); states counts the executions explored, distinct_outcomes the different observations",
         "transitions": res.transitions,
         "traces_validated_against_impl": res.evaluations,
         "evaluations": res.evaluations,
